@@ -147,13 +147,18 @@ def kal_case(rng):
     enc = lambda t: [[[x.numerator, x.denominator] for x in r] for r in t]  # noqa: E731
     c = {"kind": "kal", "ds": ds, "do": do, "m0": [[x.numerator, x.denominator] for x in m0], "P0": enc(P0), "A": enc(A),
          "Q": enc(Q), "C": enc(C), "R": enc(R), "ys": enc(ys)}
-    f = lambda t: jnp.asarray([[float(x) for x in r] for r in t], dtype=jnp.float32)  # noqa: E731
+    # the same problem in units of 10^-k (a precise sensor / large units): means and observations scale by u,
+    # covariances by u^2, the dynamics and observation matrices are unit-free; the exact model undoes the units
+    k = rng.choice([0, 0, 0, 1, 2, 3, 4, 5])
+    c["unit"] = k
+    u = Fraction(1, 10 ** k)
+    f = lambda t, w=Fraction(1): jnp.asarray([[float(x * w) for x in r] for r in t], dtype=jnp.float32)  # noqa: E731
     try:
         jax.config.update("jax_enable_x64", False)
-        obs = f(ys)
-        m = jnp.asarray([float(x) for x in m0], dtype=jnp.float32)
-        fm, fc, lml = ss.kalman_filter(obs, m, f(P0), f(A), f(Q), f(C), f(R))
-        sm, sc = ss.kalman_smoother(obs, m, f(P0), f(A), f(Q), f(C), f(R))
+        obs = f(ys, u)
+        m = jnp.asarray([float(x * u) for x in m0], dtype=jnp.float32)
+        fm, fc, lml = ss.kalman_filter(obs, m, f(P0, u * u), f(A), f(Q, u * u), f(C), f(R, u * u))
+        sm, sc = ss.kalman_smoother(obs, m, f(P0, u * u), f(A), f(Q, u * u), f(C), f(R, u * u))
         c["fm"] = [[fr(v) for v in r] for r in np.asarray(fm)]
         c["fc"] = [[[fr(v) for v in r] for r in mm] for mm in np.asarray(fc)]
         c["sm"] = [[fr(v) for v in r] for r in np.asarray(sm)]
